@@ -4,6 +4,7 @@ import (
 	"fmt"
 	"go/ast"
 	"go/token"
+	"go/types"
 	"strings"
 )
 
@@ -120,6 +121,59 @@ func runC15(c *Ctx) {
 				})
 			c.Stats["assignments_evaluated"] += n
 			reportE9(c, "all-blocks-of-resolution-visited", rel+".(*bucketBlockSet).add#less", p.Pos(less.Lit.Pos()), cx, err, "blocks are not kept sorted by (MinTime, MaxTime): the scan's early end relies on ascending MinTime")
+		}
+		// the sort runs on every path that stored a block (must-pass-through): a shortcut that skips it
+		// for blocks "that go last anyway" is wrong for overlapping blocks, whichever bound it compares
+		info := add.Info()
+		e := newE3(p, add, []Ev{
+			{Name: "store", MatchNode: func(i *types.Info, n ast.Node) bool {
+				as, ok := n.(*ast.AssignStmt)
+				if !ok {
+					return false
+				}
+				for _, r := range as.Rhs {
+					if call, ok := unparen(r).(*ast.CallExpr); ok && len(call.Args) >= 2 {
+						if id, ok := call.Fun.(*ast.Ident); ok && id.Name == "append" && isNamedPtr(i.TypeOf(call.Args[len(call.Args)-1]), "pkg/store", "bucketBlock") {
+							return true
+						}
+					}
+				}
+				return false
+			}},
+			{Name: "sort", Match: func(i *types.Info, call *ast.CallExpr) bool {
+				f := calleeOf(i, call)
+				return f != nil && f.Pkg() != nil && (f.Pkg().Path() == "sort" || f.Pkg().Path() == "slices") && strings.HasPrefix(f.Name(), "S")
+			}},
+		})
+		stored, bad, where := false, "", p.Pos(add.Decl.Pos())
+		for _, ex := range e.Exits() {
+			if ex.Panic || ex.Bits["store"]&eOK == 0 {
+				continue
+			}
+			stored = true
+			if ex.Bits["sort"]&eNo != 0 {
+				// a list of at most one block is sorted as it is
+				trivial := false
+				if ex.Ret != nil {
+					for _, g := range guardsOf(p, add, ex.Ret) {
+						t := canon(g.Cond)
+						if g.Pol && strings.HasPrefix(t, "len(") && (strings.HasSuffix(t, ")==1") || strings.HasSuffix(t, ")<=1") || strings.HasSuffix(t, ")<2")) {
+							trivial = true
+						}
+					}
+				}
+				if !trivial {
+					bad, where = "a block is added and the function returns without sorting on some path "+evBitsString(ex.Bits["sort"]), ex.Pos
+				}
+			}
+		}
+		_ = info
+		switch {
+		case !stored:
+			c.Incomplete("all-blocks-of-resolution-visited", rel+".(*bucketBlockSet).add#sorted-after-every-add", p.Pos(add.Decl.Pos()), "the append of the new block was not found")
+		default:
+			c.Check(bad == "", "all-blocks-of-resolution-visited", rel+".(*bucketBlockSet).add#sorted-after-every-add", where, "add-without-sort",
+				bad+": getFor ends its scan at the first block that starts after the range, which is only sound while blocks are in (MinTime, MaxTime) order")
 		}
 	}
 
